@@ -145,6 +145,8 @@ def work(item):
             _work_mpo(res, payload)
         elif kind == "add":
             _work_add(res, payload)
+        elif kind == "wide":
+            _work_wide(res, payload)
     except Refuse as e:
         res.ob(1)
         res.inconc(f"translation refused: {e}")
@@ -244,6 +246,79 @@ def _numeric_circ_bad(specs, n, variants, light):
         if bad:
             return f"simulator[{variant}] from the default initial state: {bad}"
     return None
+
+
+def _tensor_apply(M, idx, n, v):
+    """Oracle for wide registers that never builds a 2^n x 2^n matrix: the state is a tensor with one axis per qubit
+    (axis q = qubit q, qubit 0 most significant), the gate a tensor with k output and k input axes in the gate's OWN qubit
+    order; the contraction is written with explicit index labels (einsum), no axis arithmetic."""
+    k = len(idx)
+    T = np.asarray(v, dtype=complex).reshape((2,) * n)
+    G = np.asarray(M, dtype=complex).reshape((2,) * (2 * k))
+    outs, ins = list(range(n, n + k)), [idx[j] for j in range(k)]
+    res_axes = list(range(n))
+    for j, q in enumerate(idx):
+        res_axes[q] = outs[j]
+    return np.einsum(G, outs + ins, T, list(range(n)), res_axes).reshape(-1)
+
+
+def _wide_states(n):
+    N = 1 << n
+    e0 = np.zeros(N, dtype=complex)
+    e0[0] = 1.0
+    el = np.zeros(N, dtype=complex)
+    el[(N // 3) | 1] = 1.0
+    j = np.arange(N)
+    dense = ((j * 37 + 11) % 101 - 50) / 64.0 + 1j * ((j * 53 + 7) % 89 - 44) / 64.0
+    dense = dense / np.linalg.norm(dense)
+    return [("e0", e0), (f"e{(N // 3) | 1}", el), ("dense", dense)]
+
+
+def _wide_bad(specs, n, variants):
+    """registers wider than a byte of qubits: every operation alone (apply) and the circuit (sequential apply, simulators)
+    against the tensor oracle; the self-check first pins the oracle to the bit-level embedding on a small register."""
+    Mk = CS.np_matrix(CS.gate_by_id("K3").matrix, {})
+    chk = np.array([(3 * i + 1) % 7 - 3 + 1j * (i % 3) for i in range(32)], dtype=complex)
+    if np.abs(_tensor_apply(Mk, (4, 0, 2), 5, chk) - CS.np_embed(Mk, [4, 0, 2], 5) @ chk).max() > 1e-12:
+        raise AssertionError("tensor oracle disagrees with the bit-level embedding")
+    c = CS.circuit_from_spec(specs, n)
+    if c.free_symbols:
+        c = c.bind({s: _num_value(str(s)) for s in c.free_symbols})
+    from orquestra.quantum.circuits import MultiPhaseOperation
+
+    def oracle_step(op, v):
+        if isinstance(op, MultiPhaseOperation):
+            return np.exp(1j * np.array([float(x) for x in op.params])) * v
+        return _tensor_apply(CS.np_matrix(op.gate.matrix, {}), tuple(op.qubit_indices), n, v)
+
+    for tag, v in _wide_states(n):
+        want = v
+        st = v.copy()
+        for op in c.operations:
+            one = op.apply(want.copy())
+            want = oracle_step(op, want)
+            bad = _num_bad(one, want)
+            if bad:
+                return f"{op}.apply on numeric state {tag} (n={n}): {bad}"
+            st = op.apply(st)
+        bad = _num_bad(st, want)
+        if bad:
+            return f"sequential apply on numeric state {tag} (n={n}): {bad}"
+        for variant in variants:
+            wf = make_sim(variant).get_wavefunction(c, v.copy())
+            bad = _num_bad(wf.amplitudes, want)
+            if bad:
+                return f"simulator[{variant}] on numeric state {tag} (n={n}): {bad}"
+    return None
+
+
+def _work_wide(res, p):
+    res.d["ground_instances"] += 1
+    res.d["instances"] -= 1
+    specs = [tuple(s) for s in p["specs"]]
+    res.sample({"circuit": p["label"], "n": p["n"], "free_symbols": 0})
+    _ground_clause(res, "wide-register-run", _wide_bad(specs, p["n"], p.get("variants", [])), f"[{p['label']}] numeric state vectors", p)
+    res.d["ground_instances"] -= 1  # counted once (by _ground_clause)
 
 
 def _ground_clause(res, clause, bad, what, payload):
@@ -581,6 +656,33 @@ def instances(tier, seed):
         specs.append(("RY(th1)", (n - 1,)))
         vs = VARIANTS if tier == "thorough" else ["symbolic"] + rng.sample(VARIANTS[1:], 3)
         items.append(("circ", {"n": n, "specs": [list(map(_l, s)) for s in specs], "variants": vs, "twin": False, "light": True, "label": f"sim n={n} {CS.spec_str(specs)} #{j}"}))
+    # 2c. custom gates that RE-USE a gate name (and parameter values) with a different matrix: inside one circuit, and from one
+    # circuit to the next on the same qubits and width (neighbouring instances go to the same worker: a process-wide memo keyed by
+    # what an operation looks like shows up here, or in the history replay)
+    same_name = [
+        (1, [("UA", (0,)), ("UB", (0,)), ("UC", (0,))]),
+        (2, [("UB", (1,)), ("CNOT", (0, 1)), ("UC", (1,)), ("UA", (1,))]),
+        (2, [("VA(0.5)", (0,)), ("VB(0.5)", (0,)), ("RY(th1)", (1,))]),
+        (1, [("UA", (0,))]), (1, [("UB", (0,))]), (1, [("UC", (0,))]),
+        (2, [("VB(0.75)", (1,)), ("H", (0,))]), (2, [("VA(0.75)", (1,)), ("H", (0,))]),
+        (2, [("UC|c1", (0, 1))]), (2, [("UA|c1", (0, 1))]),
+    ]
+    for n, specs in same_name:
+        items.append(("circ", {"n": n, "specs": [list(map(_l, s)) for s in specs], "variants": ["symbolic", "default", "none"], "twin": False, "light": True, "label": f"same-name n={n} {CS.spec_str(specs)}"}))
+    # 2d. registers wider than 8 qubits (numeric; ground): gates of arity 1..4 on index tuples in every cyclic / inverted order
+    # reaching across the register, alone and in circuits with phase-only operations interleaved
+    wide_n = [9] if tier == "quick" else [9, 10]
+    for n in wide_n:
+        hi = n - 1
+        t3 = list(itertools.permutations((1, 4, hi)))
+        t4 = [(0, 3, 5, hi), (hi, 5, 3, 0), (3, hi, 0, 5), (5, 0, hi, 3), (hi, 0, 3, 5), (3, 5, hi, 0)] if tier == "quick" else list(itertools.permutations((0, 3, 5, hi)))
+        for t in t3:
+            items.append(("wide", {"n": n, "specs": [["K3", list(t)]], "variants": [], "label": f"wide n={n} K3{t}"}))
+        for t in t4:
+            items.append(("wide", {"n": n, "specs": [["K2|c2", list(t)]], "variants": [], "label": f"wide n={n} K2|c2{t}"}))
+        items.append(("wide", {"n": n, "specs": [["K2", [hi, 0]], ["K1", [hi]], ["D2", [2, hi]], ["P3", [hi, 2, 0]], ["K2", [3, hi - 1]]], "variants": [], "label": f"wide n={n} circuit K (apply only)"}))
+        items.append(("wide", {"n": n, "specs": [["RY(0.75)|c2", [hi, 0, 4]], ["T", [hi]], ["CPHASE(0.5)", [2, hi]], ["ISWAP|c1", [hi, 2, 0]], ["RY(0.75)|c1", [hi, 1]]], "variants": ["symbolic", "oneq"], "label": f"wide n={n} circuit A"}))
+        items.append(("wide", {"n": n, "specs": [["U3(0.4,1.1,-0.3)|c2", [hi - 1, 0, hi]], ["MPO(" + ",".join(str(0.25 * ((3 * i + 1) % 7) - 0.5) for i in range(1 << n)) + ")", []], ["RX(0.5)|c2", [4, hi, 1]], ["H", [hi]]], "variants": ["default", "multiq"], "label": f"wide n={n} circuit B (phase layer)"}))
     # 3. phase-only operations interleaved (angles symbolic, phases concrete)
     def ph(N, k):
         return "MPO(" + ",".join(str(0.25 * ((3 * i + k) % 7) - 0.5) for i in range(N)) + ")"
@@ -635,7 +737,7 @@ def run(ctx):
     if getattr(ctx, "only", None):
         items = [it for it in items if ctx.only in it[1]["label"] or ctx.only == it[0]]
     ctx.bounds = {
-        "register_width": "n <= 4 (arity-4 sparse generic gate on n <= 5 in the thorough tier)",
+        "register_width": "n <= 4 (arity-4 sparse generic gate on n <= 5 in the thorough tier); numeric (ground) runs on 9-qubit (thorough: 10) registers",
         "lift": "every ordered tuple of distinct qubit indices for generic gates of arity 1..3 (quick: half of the n=4,k=3 tuples)",
         "circuits": "length <= 3 over {G1,G2,G3 generic; H,T,RZ,RY,XX,CNOT,CZ,SWAP,ISWAP builtin; K2 constant asymmetric custom}, sampled with VERIF_SEED",
         "simulators": "SymbolicSimulator and BaseWavefunctionSimulator subclasses with native sets: " + ", ".join(VARIANTS[1:]),
@@ -681,6 +783,9 @@ def replay(data):
     try:
         if clause == "apply-numeric-state":
             bad = _numeric_lift_bad(inp["gid"], tuple(inp["idx"]), inp["n"])
+            return bool(bad), bad or "ok"
+        if clause == "wide-register-run":
+            bad = _wide_bad([tuple(x) for x in inp["specs"]], inp["n"], inp.get("variants", []))
             return bool(bad), bad or "ok"
         if clause == "numeric-run":
             bad = _numeric_circ_bad([tuple(x) for x in inp["specs"]], inp["n"], inp.get("variants", []), bool(inp.get("light")))
